@@ -34,7 +34,7 @@ def hierarchies(draw):
     lines += ["class Err1(msg: Str): Exception(msg)", "class Err2(msg: Str): Err1(msg)"]
     parents["Err1"] = ["Exception"]
     parents["Err2"] = ["Err1"]
-    size = draw(st.sampled_from(["small", "small", "medium"]))
+    size = draw(st.sampled_from(["small", "small", "medium"]))  # medium only matters in the thorough tier
     return {"src": "\n".join(lines) + "\n", "user_parents": parents, "size": size,
             "pick": draw(st.integers(0, 10 ** 6))}
 
@@ -83,7 +83,7 @@ def build_universe(case, classes, tier):
             add({"opt": t}, kind="opt", of=i)
     # unions of two members
     members = [idx[c] for c in plain if c != "Any"]
-    if case["size"] == "small" and tier == "quick":
+    if tier == "quick" or case["size"] == "small":
         # a rotating window keeps the quick universe near 200 terms
         k = case["pick"] % max(1, len(members))
         members = (members[k:] + members[:k])[:9]
@@ -114,7 +114,7 @@ def ancestors(cls, parents):
 
 class C20:
     id = "C20"
-    cases = {"quick": 3, "thorough": 40}
+    cases = {"quick": 1, "thorough": 30}
     rule = ("per case a generated user hierarchy (3-7 classes, depth <=3, up to two parents each, an interface with "
             "implementer, a two-level exception chain) is compiled into a context; the universe is every plain class of that "
             "context (built-in and user), List/Set/Dict/Tuple instantiations to depth 2, function types, the nullable variant of "
@@ -167,14 +167,35 @@ class C20:
         for i, (t, tags) in enumerate(terms):
             if tags["kind"] == "union":
                 by_members[tags["members"]] = i
-        r = worker.call({"op": "lattice", "src": case["src"], "terms": [t for t, _ in terms], "eq": eq_pairs},
-                        cpu_limit=600)
+        # terms and == queries for the algebraic laws ride along in the same tabulation
+        checks = []
+        for u, (t, tags) in enumerate(terms):
+            if tags["kind"] == "union":
+                a, b = tags["members"]
+                checks.append(("commutative", u, {"u": [terms[b][0], terms[a][0]]}))
+                checks.append(("idempotent", a, {"u": [terms[a][0], terms[a][0]]}))
+        tri = {}
+        for u, (t, tags) in enumerate(terms):
+            if tags["kind"] == "union3":
+                tri.setdefault(tags["members"], {})[tags["shape"]] = u
+        extra_terms = [c[2] for c in checks]
+        base = len(terms)
+        pairs = [[c[1], base + k] for k, c in enumerate(checks)]
+        for m, d in tri.items():
+            if len(d) == 2:
+                pairs.append([d["ab_c"], d["a_bc"]])
+                checks.append(("associative", d["ab_c"], None))
+        r = worker.call({"op": "lattice", "src": case["src"], "terms": [t for t, _ in terms] + extra_terms, "eq": pairs},
+                        cpu_limit=900)
         if "sup" not in r:
             if outcome(r) in ("panic", "abort"):
                 return {"what": "tabulating the relation crashed: %s" % (r.get("panic") or r.get("abort"))}
             return {"inconclusive": True, "why": str(r)[:300]}
-        S, S2, disp = r["sup"], r["sup2"], r["display"]
+        S3 = [list(row) for row in r["sup"]]
         n = len(terms)
+        S = [row[:n] for row in r["sup"][:n]]
+        S2 = [row[:n] for row in r["sup2"][:n]]
+        disp = r["display"]
         stats.inc("universes")
         stats.inc("terms", n)
         stats.inc("pairs", n * n)
@@ -257,30 +278,8 @@ class C20:
                     if bool(S[x][u]) != bool(S[x][a] and S[x][b]):
                         return {"what": "%s >= %s is %s although >= %s is %s and >= %s is %s"
                                         % (name(x), name(u), bool(S[x][u]), name(a), bool(S[x][a]), name(b), bool(S[x][b]))}
-        # algebraic laws through Name equality: ask the worker
-        eq_req = []
-        checks = []
-        for u, (t, tags) in enumerate(terms):
-            if tags["kind"] == "union":
-                a, b = tags["members"]
-                checks.append(("commutative", u, {"u": [terms[b][0], terms[a][0]]}))
-                checks.append(("idempotent", a, {"u": [terms[a][0], terms[a][0]]}))
-        tri = {}
-        for u, (t, tags) in enumerate(terms):
-            if tags["kind"] == "union3":
-                tri.setdefault(tags["members"], {})[tags["shape"]] = u
-        extra_terms = [c[2] for c in checks]
-        base = len(terms)
-        pairs = [[c[1], base + k] for k, c in enumerate(checks)]
-        for m, d in tri.items():
-            if len(d) == 2:
-                pairs.append([d["ab_c"], d["a_bc"]])
-                checks.append(("associative", d["ab_c"], None))
-        r2 = worker.call({"op": "lattice", "src": case["src"], "terms": [t for t, _ in terms] + extra_terms, "eq": pairs},
-                         cpu_limit=900)
-        if "eq" not in r2:
-            return {"inconclusive": True, "why": str(r2)[:300]}
-        S3 = r2["sup"]
+        # algebraic laws: Name equality and equal rows/columns
+        r2 = r
         for (law, u, _t), (i, j), ok in zip(checks, pairs, r2["eq"]):
             stats.inc("law:" + law)
             if not ok:
